@@ -101,6 +101,11 @@ def explore(ctx, depth):
         cols = rng.sample(kern_hdrs, rng.randint(2, 5))
         rows = [rng.choice(pool2) for _ in range(rng.randint(3, 9))]
         rows += [rng.choice(rows) for _ in range(3)]          # repeated texts
+        if rng.random() < 0.6:
+            # an invisible barline, later a visible one of the same shape (and the other way round): tokens that compare equal but differ in `hidden`
+            hb, vb = rng.choice([('=1-', '='), ('=-', '='), ('=3-', '=3'), ('==-', '=='), ('=2-', '=')])
+            k = rng.randrange(len(rows))
+            rows = rows[:k] + ([hb] if rng.random() < 0.7 else [vb]) + rows[k:] + [vb, hb, vb]
         docs.append((cols, rows))
     need = sorted({c for _, rows in docs for c in rows})
     kern2 = {c: tokobs.fresh_kern(c) for c in need}
